@@ -99,6 +99,9 @@ def run(ctx):
                              r"std::num::<impl u64>::(wrapping_|overflowing_|unchecked_)(add|sub|mul)|<u64 as std::iter::Sum)", c):
                     n_arith += 1
                     ctx.ob("R2", "%s|%s" % (fn.path, c), False, fn.loc(bb), "unchecked operator `%s` on u64 (gas) values" % c, fn)
+                elif re.search(r"^std::iter::Iterator::(sum|product)$|^<.* as std::iter::(Sum|Product)(<.*>)?>::(sum|product)$", c) and "u64" in [M.norm_ty(g) for g in (t.get("gargs") or [])][-1:]:
+                    n_arith += 1
+                    ctx.ob("R2", "%s|%s" % (fn.path, M.short_path(c)), False, fn.loc(bb), "`%s::<u64>` adds u64 (gas) values with the raw, panicking/wrapping `+`" % c, fn)
                 elif re.search(r"std::num::<impl u64>::(checked_|saturating_)(add|sub|mul)$", c):
                     ctx.ob("R2", "%s|%s" % (fn.path, M.short_path(c)), True, fn.loc(bb), "checked/saturating", fn)
     ctx.note("raw u64 arithmetic sites: %d" % n_arith)
@@ -116,7 +119,34 @@ def run(ctx):
         unchanged = bool(re.match(r"^\*?\*?<env>\.(_ref__)?gas_limit$", r))
         # Observation K1 (DESIGN.md section 4), not an obligation: after the joined total is re-checked against the
         # limit (R1b) the property's statement holds; handing every child the full limit only amplifies work.
-        ctx.ob("R4", "child-gas-limit-flows-from-parent-limit", "gas_limit" in r, c.loc(bb),
+        flows = unchanged
+        # resolve the capture to what the parent function passes: it must be the limit the parent itself received
+        from .. import access as A
+        par = prog.fn(c.parent) if c.parent else None
+        src = None
+        if unchanged and par is not None:
+            env = A.closure_env(prog, par, c)
+            x = lim
+            while x.kind in ("deref", "ref") and x.sub:
+                x = x.sub[0]
+            if env is not None and x.kind == "field" and isinstance(x.meta, dict) and x.meta.get("i", 99) < len(env):
+                src = env[x.meta["i"]]
+                rs = A.norm(M.render(src))
+                flows = re.match(r"^\^1\.gas_limit$", rs) is not None
+                if not flows and src.kind == "aggr" and str(src.a).endswith("GasLimit"):
+                    fields = ((src.meta or {}).get("rv") or {}).get("fields") or []
+                    ti = fields.index("total") if "total" in fields else 0
+                    flows = ti < len(src.sub) and re.search(r"\^1\.gas_limit\.total", A.norm(M.render(src.sub[ti]))) is not None
+                r = "%s = %s" % (r, rs[:120])
+            else:
+                flows = False
+        if not flows and lim.kind == "aggr" and str(lim.a).endswith("GasLimit") and lim.sub:
+            # a rebuilt limit: its `total` must be computed from the parent's total (e.g. the remaining budget), not replaced
+            fields = ((lim.meta or {}).get("rv") or {}).get("fields") or []
+            ti = fields.index("total") if "total" in fields else 0
+            tot = M.render(lim.sub[ti]) if ti < len(lim.sub) else ""
+            flows = re.search(r"gas_limit\.total", tot) is not None
+        ctx.ob("R4", "child-gas-limit-flows-from-parent-limit", flows, c.loc(bb),
                "each compute child is handed `%s`%s" % (r, " (the parent's limit, unchanged: observation K1)" if unchanged else ""), c)
     # R5
     chk = [fn for fn in prog.fns_by_crate["essential_check"] if fn.kind != "Const"]
@@ -139,6 +169,38 @@ def run(ctx):
             for a in C.conditions(prog, inner, bb):
                 if a.kind == "variant" and a.terms[0] in ("Leaf", "Parent") and " as Ok).0.0" in a.text:
                     oks.add(a.terms[0])
+        # within the arm of each node kind (Ok(Parent), Ok(Leaf)), every path to the end of the arm passes through one of those additions
+        add_bbs = {bb for bb, _ in adds}
+        cfg = inner.cfg()
+        arms = []
+        for b in range(len(inner.blocks)):
+            if inner.term(b)["k"] != "switch" or inner.blocks[b]["cleanup"]:
+                continue
+            base = {a.text for a in C.conditions(prog, inner, b)}
+            for y in inner.succs(b):
+                new = [a.text for a in C.conditions(prog, inner, y) if a.text not in base]
+                kinds = [m.group(1) for a in new for m in [re.match(r"^is:(Parent|Leaf)\(\(.* as Ok\)\.0\.0\)$", a)] if m]
+                if kinds:
+                    arms.append((kinds[0], y))
+        escaped = []
+        for kind, y in arms:
+            region = {x for x in range(len(inner.blocks)) if cfg.dominates(y, x)} | {y}
+            seen, todo = {y}, [y]
+            while todo:
+                x = todo.pop()
+                if x in add_bbs:
+                    continue
+                for z in inner.succs(x):
+                    if inner.term(z)["k"] == "unreachable":
+                        continue
+                    if z not in region:
+                        escaped.append((kind, inner.loc(x)))
+                    elif z not in seen:
+                        seen.add(z)
+                        todo.append(z)
+        ok_path = sorted(k for k, _ in arms) == ["Leaf", "Parent"] and not escaped
+        detail = "arms %s; paths that leave an arm without adding the node's gas: %s" % (sorted(k for k, _ in arms), escaped[:3])
+        ctx.ob("R5", "every-Ok-node-result-adds-its-gas", ok_path, inner.loc(0), detail, inner)
         ctx.ob("R5", "both-node-kinds-counted", len(adds) >= 2, inner.loc(0), "%d saturating adds for node outputs (Leaf and Parent)" % len(adds), inner)
 
 
